@@ -397,8 +397,10 @@ def history_mapping(ctx, k):
     fresh = sandbox(base, 'fresh')
     shared = sandbox(base, 'shared')
     kw = dict(n_processors=rng.choice([1, 2, 3]), chunk_size=rng.choice([2, 3, 4]), seed=rng.randrange(10 ** 6))
-    n_chunks = (len(sc.cell_ids) + kw['chunk_size'] - 1) // kw['chunk_size']
-    bad_r0 = kw['chunk_size'] * rng.randrange(n_chunks)
+    # election.run_type_assignment_on_h5ad_cpu: chunk_size = min(ceil(n_rows / n_processors), chunk_size)
+    n_rows = len(sc.cell_ids)
+    eff = min(max(1, -(-n_rows // kw['n_processors'])), kw['chunk_size'])
+    bad_r0 = eff * rng.randrange(-(-n_rows // eff))
     plant = {'plant': {'dirs': [str(shared / 'tmp'), str(shared / 'out')], 'seed': rng.randrange(10 ** 6)}}
     log_r4 = str(shared / 'out' / 'log_r4.txt')
     fail_kinds = ['markers', 'stats']
